@@ -82,7 +82,11 @@ def run(ctx):
                     if up - 1 >= len(cs.args):
                         continue
                     cl = closure_for_operand(F, cb_, cs.args[up - 1])
-                    reads_in = [c for c in (cl.calls() if cl is not None else []) if c.name in ("read", "lock", "try_read")]
+                    is_lock_read = lambda c: c.name in ("read", "lock", "try_read")
+                    reads_in = [c for c in (cl.calls() if cl is not None else []) if is_lock_read(c)]
+                    if cl is not None and not reads_in:
+                        # the read may sit in a private accessor the callback calls (`self.units.snapshot()`)
+                        reads_in = [w[-1] for w in (reaches_call(F, cl, is_lock_read, depth=2) or [])]
                     cdom = cb_.dominators()
                     early = [c for c in cb_.calls() if c.name in ("read", "lock", "try_read") and "HashMap<alloc::string::String, metrique_writer_core::unit::Unit" in (c.self_ty or c.def_ + str(c.callee.get("args", "")))
                              and dominates(cb_, c.bb, cs.bb, cdom)]
@@ -333,6 +337,20 @@ def run(ctx):
         ins = [c for c in b.calls() if c.name == "insert" and "HashMap" in c.def_]
         ok = len(ins) == 1 and any(x[0] == "arg" and x[1] == 2 for x in pr.operand(ins[0].args[1])) and any(
             x[0] == "call" and "unit" in b.term(x[1])["callee"]["name"] for x in pr.operand(ins[0].args[2]))
+        if not ins:
+            # the insertion may sit in a private helper that is handed (name, converted unit) and inserts exactly those
+            for c in b.calls():
+                for hb in local_callee_bodies(F, c):
+                    hins = [x for x in hb.calls() if x.name == "insert" and "HashMap" in x.def_] if hb.crate == MR else []
+                    if len(hins) != 1:
+                        continue
+                    hpr = Prov(hb, adapter_pred=lambda t: (t.get("callee") or {}).get("name") in ("to_string", "as_str", "deref", "unwrap", "deref_mut", "to_owned", "into"))
+                    kp = {x[1] for x in hpr.operand(hins[0].args[1]) if x[0] == "arg" and not x[2]}
+                    vp = {x[1] for x in hpr.operand(hins[0].args[2]) if x[0] == "arg" and not x[2]}
+                    if len(kp) == 1 and len(vp) == 1 and hb.must_pass([hins[0].bb]):
+                        ka, va = c.args[next(iter(kp)) - 1], c.args[next(iter(vp)) - 1]
+                        ok = any(x[0] == "arg" and x[1] == 2 for x in pr.operand(ka)) and any(
+                            x[0] == "call" and "unit" in b.term(x[1])["callee"]["name"] for x in pr.operand(va))
         ctx.check(ok, "R20.4", fnkey(b) + "#records-unit-under-name", loc(b), "%s does not record the converted unit under the metric's name" % b.name)
     # ------------------------------------------------------------------ R20.5 reporter (call-site facts)
     # a publish step = `destination.append(recorder.readout())`: written in the task itself, or as a closure the task is handed and calls
